@@ -107,6 +107,58 @@ def _check_positional(key: str):
     return None
 
 
+SKIP_NILADS = {"?", "□", "¤", "Þ∞", "k□", "kḂ", "n", "x", "X"}
+
+
+def _check_nilad_under_modifier(k):
+    """-> 'skip' | None | message"""
+    if k in SKIP_NILADS or k.startswith("kε"):
+        return "skip"
+    try:
+        alone = harness.run_program(k, budget=200_000, wall=3)
+        under = harness.run_program("7 8 ₌" + k + k, budget=300_000, wall=3)
+        ctxrun = harness.run_program("7 8 " + k, budget=200_000, wall=3)
+    except Exception:  # noqa: BLE001
+        return "skip"
+    if alone.exc is not None or under.exc is not None or ctxrun.exc is not None or len(alone.stack) != 1:
+        return "skip"
+    try:
+        v = harness.norm(alone.stack[0], cap=50)
+        if [harness.norm(x, cap=50) for x in ctxrun.stack] != [harness.norm(7), harness.norm(8), v]:
+            return "skip"  # the element looks at the stack / context (stack length, wrap, ...): not a plain constant
+        got = [harness.norm(x, cap=50) for x in under.stack]
+    except Exception:  # noqa: BLE001
+        return "skip"
+    if got != [harness.norm(7), harness.norm(8), v, v]:
+        return f"element {k!r} has arity 0 in the table, but `7 8 ₌{k}{k}` leaves {harness.jsonable(got)!r:.200} instead of 7, 8 and its value twice"
+    return None
+
+
+def _template_shadowing():
+    """All generated code of a program shares one namespace: `head = ...` in one template would shadow the function
+    `head` that another template calls.  -> ({key: message}, number of templates read)"""
+    binds, uses = {}, {}
+    for k, (code, ar) in vyxal.elements.elements.items():
+        try:
+            tree = ast.parse(code)
+        except SyntaxError:
+            continue
+        stored = {n.id for n in ast.walk(tree) if isinstance(n, ast.Name) and isinstance(n.ctx, (ast.Store, ast.Del))}
+        loaded = {n.id for n in ast.walk(tree) if isinstance(n, ast.Name) and isinstance(n.ctx, ast.Load)}
+        binds[k] = stored
+        uses[k] = loaded - stored
+    module_names = {n for n in dir(vyxal.elements) if callable(getattr(vyxal.elements, n, None))}
+    out = {}
+    for a, st_a in binds.items():
+        for name in sorted((st_a & module_names) - {"stack", "ctx"}):
+            users = [b for b, u in uses.items() if name in u and b != a]
+            if users:
+                out[a] = (f"the template of {a!r} assigns the Python name {name!r}, through which the template(s) of {users[:5]!r} reach "
+                          f"their implementation; after {a!r} has run they are shadowed")
+                break
+    return out, len(binds)
+
+
 def _dup_keys():
     """Duplicate constant keys in the dict literals of vyxal/elements.py."""
     path = os.path.join(harness.VYXAL_DIR, "elements.py")
@@ -222,57 +274,22 @@ def run(rec, tier, seed):
         rec.fail("C20:ast-reader-broken", {"kind": "dup-reader"}, f"only {nkeys} literal keys found in elements.py")
 
     # 3a'. the arity the rest of the pipeline SEES is the table's: a niladic element under the parallel-apply modifier
-    #      must consume nothing (7 8 ₌KK leaves 7 8 k k).  Elements that read input / print / are random are skipped.
-    skip_nilads = {"?", "□", "¤", "Þ∞", "k□", "kḂ", "n", "x", "X"} | {k for k in vyxal.elements.elements if k.startswith("kε")}
+    #      must consume nothing (7 8 ₌KK leaves 7 8 k k).  Elements that read input / print / look at the stack are skipped.
     for k, (code, ar) in vyxal.elements.elements.items():
-        if ar != 0 or k in skip_nilads:
+        if ar != 0:
             continue
-        try:
-            alone = harness.run_program(k, budget=200_000)
-            under = harness.run_program("7 8 ₌" + k + k, budget=300_000)
-        except Exception:  # noqa: BLE001
-            continue
-        if alone.exc is not None or under.exc is not None or len(alone.stack) != 1:
-            continue
-        try:
-            ctxrun = harness.run_program("7 8 " + k, budget=200_000)
-            if ctxrun.exc is not None or [harness.norm(x, cap=50) for x in ctxrun.stack] != [harness.norm(7), harness.norm(8), harness.norm(alone.stack[0], cap=50)]:
-                continue  # the element looks at the stack / context (stack length, wrap, ...): not a plain constant
-        except Exception:  # noqa: BLE001
+        r = _check_nilad_under_modifier(k)
+        if r == "skip":
             continue
         rec.case(nontrivial=True, cls="nilad-under-modifier")
-        try:
-            v = harness.norm(alone.stack[0], cap=50)
-            got = [harness.norm(x, cap=50) for x in under.stack]
-        except Exception:  # noqa: BLE001
-            continue
-        if got != [harness.norm(7), harness.norm(8), v, v]:
-            rec.fail(f"C20:arity-seen-by-modifiers:{k}", {"kind": "nilad-mod", "key": k},
-                     f"element {k!r} has arity 0 in the table, but `7 8 ₌{k}{k}` leaves {harness.jsonable(got)!r:.200} instead of 7, 8 and its value twice")
+        if r:
+            rec.fail(f"C20:arity-seen-by-modifiers:{k}", {"kind": "nilad-mod", "key": k}, r)
 
     # 3a''. no table entry binds a Python name that another entry reaches its implementation through
-    #       (all generated code of a program shares one namespace: `head = ...` in one template would shadow the
-    #       function `head` that another template calls)
-    binds, uses = {}, {}
-    for k, (code, ar) in vyxal.elements.elements.items():
-        try:
-            tree = ast.parse(code)
-        except SyntaxError:
-            continue
-        stored = {n.id for n in ast.walk(tree) if isinstance(n, ast.Name) and isinstance(n.ctx, (ast.Store, ast.Del))}
-        loaded = {n.id for n in ast.walk(tree) if isinstance(n, ast.Name) and isinstance(n.ctx, ast.Load)}
-        binds[k] = stored
-        uses[k] = loaded - stored
-    rec.case(nontrivial=True, cls="template-name-shadowing", n=len(binds))
-    module_names = {n for n in dir(vyxal.elements) if callable(getattr(vyxal.elements, n, None))}
-    for a, st_a in binds.items():
-        clash = (st_a & module_names) - {"stack", "ctx"}
-        for name in sorted(clash):
-            users = [b for b, u in uses.items() if name in u and b != a]
-            if users:
-                rec.fail(f"C20:template-shadows-name:{a}", {"kind": "shadow", "key": a},
-                         f"the template of {a!r} assigns the Python name {name!r}, through which the template(s) of {users[:5]!r} reach their implementation; after {a!r} has run they are shadowed")
-                break
+    shadows, nbind = _template_shadowing()
+    rec.case(nontrivial=True, cls="template-name-shadowing", n=nbind)
+    for a, msg in shadows.items():
+        rec.fail(f"C20:template-shadows-name:{a}", {"kind": "shadow", "key": a}, msg)
 
     # 3b. the tables are the same after the pipeline has been used (they are global, mutable dicts)
     snap_e, snap_m, snap_cp = dict(vyxal.elements.elements), dict(vyxal.elements.modifiers), vyxal.encoding.codepage
@@ -360,13 +377,15 @@ def replay(case):
         run(rec, "quick", 1)
         f = rec.failures.get("C20:table-mutated-by-use")
         return ("C20:table-mutated-by-use", f["msg"]) if f else None
-    if kind in ("nilad-mod", "shadow"):
-        rec = __import__("vx.campaign", fromlist=["Rec"]).Rec()
-        run(rec, "quick", 1)
-        for sig, f in rec.failures.items():
-            if f["case"].get("kind") == kind and f["case"].get("key") == case.get("key"):
-                return (sig, f["msg"])
-        return None
+    if kind == "nilad-mod":
+        k = case.get("key")
+        if k not in vyxal.elements.elements or vyxal.elements.elements[k][1] != 0:
+            return None
+        r = _check_nilad_under_modifier(k)
+        return (f"C20:arity-seen-by-modifiers:{k}", r) if r and r != "skip" else None
+    if kind == "shadow":
+        sh = _template_shadowing()[0]
+        return (f"C20:template-shadows-name:{case.get('key')}", sh[case.get("key")]) if case.get("key") in sh else None
     if kind == "positional":
         if not case["key"]:
             return None
